@@ -116,6 +116,12 @@ def cases(tier, seed):
         spec["kind"] = "run"
         spec["extra_atoms"] = spec["seed"] % 5 == 0
         out.append(spec)
+    # long stretches / whole chains of the real proteins
+    for spec in workload.long_cases(seed, 7 if tier == "quick" else 420, opts_fn=opts,
+                                    long_max=150 if tier == "quick" else 400):
+        spec["kind"] = "run"
+        spec["extra_atoms"] = False
+        out.append(spec)
     nt = 36 if tier == "quick" else 5000
     for i in range(nt):
         out.append({"kind": "titr", "w": "synth", "seed": seed * 3001 + i, "ff": common.FFS[i % 6],
